@@ -427,8 +427,26 @@ def removeZone (host : Bytes) : Bytes :=
     | none => host
     | some j => host.take j ++ host.drop i
 
-/-- The `Host` header (`:authority`) the transport writes. -/
+/-- `(*url.URL).Port()`: the text after the last colon when it is a valid (numeric or empty) port. -/
+def urlPort (host : Bytes) : Bytes :=
+  match splitLast 58 host with
+  | some (_, p) => if validPortDigits p then p else []
+  | none => []
+
+/-- transport.go `canonicalAddr`: the address handed to the dialer — hostname and port (the
+scheme's default when none is written), `net.JoinHostPort` re-bracketing an IPv6 literal. -/
+def dialAddr (u : Url) : Bytes :=
+  let h := urlHostname u.host
+  let p := urlPort u.host
+  let p := if p.isEmpty then (match u.scheme with | .http => [56, 48] | .https => [52, 52, 51]) else p
+  if h.contains 58 || h.contains 37 then 91 :: h ++ 93 :: 58 :: p else h ++ 58 :: p
+
+/-- The `Host` header the HTTP/1.1 transport writes. -/
 def wireHost (r : Req) : Bytes := removeZone (if r.hostField.isEmpty then r.url.host else r.hostField)
+
+/-- The `:authority` pseudo-header of HTTP/2 (internal/http2 `encodeHeaders`, as x/net): the same
+choice, but the zone is not removed. -/
+def wireAuthority (r : Req) : Bytes := if r.hostField.isEmpty then r.url.host else r.hostField
 
 /-! ## the caller's side: `Client.roundTrip` builds the first request
 
